@@ -29,7 +29,17 @@ fn park(id: usize, name: &'static str) {
     while g[id].gen == my { g = c.cv.wait(g).unwrap(); }
     g[id].at = None;
 }
+/// gate for the (non-agent) worker thread of `worker_channel_probe`: (armed, parked, go)
+static WGATE: OnceLock<(Mutex<(bool, bool, bool)>, Condvar)> = OnceLock::new();
+fn wgate() -> &'static (Mutex<(bool, bool, bool)>, Condvar) { WGATE.get_or_init(|| (Mutex::new((false, false, false)), Condvar::new())) }
+
 fn hook(name: &'static str) {
+    if name == "worker.rotate.begin" {
+        let (m, cv) = wgate();
+        let mut g = m.lock().unwrap();
+        if g.0 && !g.1 { g.1 = true; cv.notify_all(); while !g.2 { g = cv.wait(g).unwrap(); } }
+        return;
+    }
     if let Some(id) = AGENT.with(|a| a.get()) {
         match name {
             "write.begin" | "rotate.begin" | "ingest.begin" => {}
@@ -507,6 +517,32 @@ fn stall_probe() -> Option<Failure> {
     Some(Failure { kind: "impl-vs-oracle", detail: format!("write stall: with 4 sealed memtables queued, a writer (returned: {}) and the flush worker (finished: {}) did not both make progress within 60 s - the stalled writer keeps the flush from running", done_w.load(Ordering::Acquire), done_f.load(Ordering::Acquire)), witness: None })
 }
 
+/// C14 "writers proceed eventually" needs the background workers to make progress: a worker must never
+/// wait for room in the bounded message channel that only workers drain.  One worker thread; it is held
+/// right after it took the first rotation request; the writer keeps writing (one rotation request per
+/// write above the memtable limit) until the channel is full; the worker then rotates and has to hand
+/// the flush on.  Oracle: the queue drains and the flush happens.
+fn worker_channel_probe() -> Option<Failure> {
+    let scratch = Scratch::new("wchan");
+    { let (m, _) = wgate(); *m.lock().unwrap() = (true, false, false); }
+    let db = Database::builder(scratch.join("db")).worker_threads(1).open().ok()?;
+    let ks = db.keyspace("a", || KeyspaceCreateOptions::default().max_memtable_size(4 * 1024)).ok()?;
+    let v = vec![7u8; 200];
+    let mut i = 0u64;
+    let open_gate = || { let (m, cv) = wgate(); let mut g = m.lock().unwrap(); g.2 = true; g.0 = false; cv.notify_all(); };
+    while !wgate().0.lock().unwrap().1 { if ks.insert(format!("{i:08}"), &v).is_err() || i > 50_000 { open_gate(); return None; } i += 1; }
+    while fjall::verif::queued_worker_messages(&db) < 1000 { if ks.insert(format!("{i:08}"), &v).is_err() || i > 50_000 { open_gate(); return None; } i += 1; }
+    open_gate();
+    let t0 = Instant::now();
+    while t0.elapsed() < Duration::from_secs(60) {
+        if fjall::verif::queued_worker_messages(&db) == 0 && ks.table_count() > 0 { return None; }
+        std::thread::sleep(Duration::from_millis(20));
+    }
+    let left = fjall::verif::queued_worker_messages(&db);
+    std::mem::forget(ks); std::mem::forget(db); std::mem::forget(scratch); // dropping would hang as well
+    Some(Failure { kind: "impl-vs-oracle", detail: format!("worker pool deadlock: 1 worker thread, {i} writes of 200 bytes with a 4 KiB memtable limit filled the worker channel (1000 rotation requests) while the worker was busy; the worker then rotated the memtable and made no progress for 60 s ({left} messages still queued, no table flushed): it waits for room in the channel it is itself supposed to drain - flushes and compactions never run again, writers halt for good at 4 sealed memtables, Database::drop hangs"), witness: None })
+}
+
 fn main() {
     let args: Vec<String> = std::env::args().collect();
     let mut replay = None;
@@ -532,6 +568,7 @@ fn main() {
     let mut hist = BTreeMap::new();
     let mut cases = 0;
     if replay.is_none() { if let Some(f) = stall_probe() { all.push((0, f)); } *hist.entry("stall-probe".to_string()).or_insert(0) += 1; }
+    if replay.is_none() { if let Some(f) = worker_channel_probe() { all.push((0, f)); } *hist.entry("worker-channel-probe".to_string()).or_insert(0) += 1; }
     for cs in seeds {
         let res = std::panic::catch_unwind(std::panic::AssertUnwindSafe(|| run_case(cs, &mut lean, &mut hist, &mut samples, thorough, nofloor)));
         cases += 1;
